@@ -13,7 +13,8 @@ Case lines (numbers: decimal integers or `h` + 16 hex digits of an f64 bit patte
     con <eps> <L> px py               Line::contains
     ln <eps> <L>                      the constructed line itself
 
-`M` = result of the `Float` instance of the model (coordinates as bit patterns);
+`M` = result of the `Float` instance of the model: kind + number of points (with the case prefix `bits`: kind +
+coordinates as bit patterns, diagnostics only);
 mode `K`: view = reported kind, `S` = exact kind or `any` inside the tolerance band / outside the domain;
 mode `P`: view = `ok` iff every returned point is within 1e-7 of both primitives (evaluated exactly
 over the rationals on the model's coordinates), `S` = `ok` in the domain.
@@ -121,9 +122,7 @@ def handleToks (full : Bool) (line : String) : List String → String
           let res := intersectLL G u.fl v.fl
           let resP := intersectLL (floatGeo propEps) u.fl v.fl
           let par := parallel G u.fl v.fl
-          let raw := (match res with
-            | none => "None"
-            | some p => "Some " ++ showPoint full p) ++ " par=" ++ showBool par
+          let raw := showPts full (llKind res) res.toList ++ " par=" ++ showBool par
           let dom := u.dom && v.dom
           if mode = "K" then
             answer3 raw (llKind resP) (specOr dom (specKindLL u.q v.q))
@@ -158,7 +157,7 @@ def handleToks (full : Bool) (line : String) : List String → String
           let res := showBool (lineContains G l.fl ⟨px, py⟩)
           let resP := showBool (lineContains (floatGeo propEps) l.fl ⟨px, py⟩)
           let dom := l.dom && coordOk px && coordOk py
-          answer3 (res ++ " " ++ showNum full (lineDist G l.fl ⟨px, py⟩)) resP (specOr dom (specContains l.q ⟨qOf px, qOf py⟩))
+          answer3 (if full then res ++ " " ++ showNum (lineDist G l.fl ⟨px, py⟩) else res) resP (specOr dom (specContains l.q ⟨qOf px, qOf py⟩))
         | _, _ => badLine line
       | _ => badLine line
     | none => badLine line
@@ -168,7 +167,7 @@ def handleToks (full : Bool) (line : String) : List String → String
       let G := floatGeo eps
       match parseLine G rest with
       | some (l, []) =>
-        let raw := showNum full l.fl.a ++ " " ++ showNum full l.fl.b ++ " " ++ showNum full l.fl.c
+        let raw := if full then showNum l.fl.a ++ " " ++ showNum l.fl.b ++ " " ++ showNum l.fl.c else "line"
         -- view: the stored normal has unit length (to 1e-9) and the stored line is the exact line
         -- (two points of the exact line about one unit apart are within 1e-7 of the stored one)
         let view :=
